@@ -134,6 +134,8 @@ func runC06(seed int64, n int, dir string, _ []string) {
 	datetimeFormats(g, o, n)
 	cellTexts(g, o, pr, n)
 	unicodeTexts(g, o, n)
+	castAll(g, o, pr, n/2)
+	unaryOps(g, o, pr, n/2)
 	dateTexts(g, o, 2*n)
 
 	// exhaustive Kleene tables against min/max/negation, on the real ternary package
